@@ -2585,9 +2585,13 @@ char *_GD_ParseFragment(FILE *restrict fp, DIRFILE *D, struct parser_state *p,
       match = _GD_ParseDirective(D, p, in_cols, n_cols, me, &ref_name,
           &outstring, tok_pos);
 
-    if (D->error == GD_E_OK && !match)
-      first_raw = _GD_ParseFieldSpec(D, p, n_cols, in_cols, strlen(in_cols[0]),
-          NULL, me, 0, 1, &outstring, tok_pos);
+    if (D->error == GD_E_OK && !match) {
+      /* remember the first RAW field of the fragment, not the last */
+      gd_entry_t *E = _GD_ParseFieldSpec(D, p, n_cols, in_cols,
+          strlen(in_cols[0]), NULL, me, 0, 1, &outstring, tok_pos);
+      if (first_raw == NULL)
+        first_raw = E;
+    }
 
     if (D->error == GD_E_FORMAT) {
       /* call the callback for this error */
